@@ -93,11 +93,11 @@ pub struct RunInfo {
 pub trait Scenario: Sync {
     fn name(&self) -> &'static str;
     /// generate a run from `seed` and execute it
-    fn run(&self, seed: u64, tier: Tier, st: &mut Stats) -> (RunInfo, Option<Failure>);
+    fn run(&self, seed: u64, index: u64, tier: Tier, st: &mut Stats) -> (RunInfo, Option<Failure>);
     /// re-execute an explicit trace (from a replay file or the minimiser)
     fn replay(&self, trace: &Value, st: &mut Stats) -> Result<Option<Viol>, String>;
-    /// candidates strictly simpler than `trace`
-    fn shrink(&self, trace: &Value) -> Vec<Value>;
+    /// minimise a failing trace while the same violation class persists
+    fn minimise(&self, trace: &Value, class: &str, budget: usize) -> (Value, Viol, usize);
     /// a sample case for the evidence file
     fn sample(&self, seed: u64, tier: Tier) -> Value;
     /// the rule text for evidence
@@ -147,7 +147,7 @@ pub fn run_batch(sc: &dyn Scenario, seed: u64, runs: u64, tier: Tier) -> BatchRe
                         }
                         for i in start..(start + chunk).min(runs) {
                             let run_seed = mix(seed, i);
-                            let (info, f) = sc.run(run_seed, tier, &mut st);
+                            let (info, f) = sc.run(run_seed, i, tier, &mut st);
                             if info.nontrivial {
                                 keys.insert(info.key);
                             }
@@ -177,25 +177,36 @@ pub fn run_batch(sc: &dyn Scenario, seed: u64, runs: u64, tier: Tier) -> BatchRe
     }
 }
 
-/// Greedy minimisation: repeatedly take the first simpler candidate that still
-/// fails with the same violation class.
-pub fn minimise(sc: &dyn Scenario, trace: Value, class: &str, budget: usize) -> (Value, Viol, usize) {
-    let mut cur = trace;
-    let mut st = Stats::default();
-    let mut cur_viol = match sc.replay(&cur, &mut st) {
-        Ok(Some(v)) => v,
-        _ => Viol::new(class, "original trace did not reproduce during minimisation"),
+/// Greedy minimisation over typed traces: `edits` lists cheap edit descriptors for the
+/// current trace, `apply` builds the edited trace lazily, `test` re-executes it. The first
+/// edit that still fails with the same violation class is kept; repeat until none does.
+pub fn minimise_typed<T: Clone, E>(
+    start: T,
+    class: &str,
+    budget: usize,
+    edits: impl Fn(&T) -> Vec<E>,
+    apply: impl Fn(&T, &E) -> Option<T>,
+    mut test: impl FnMut(&T) -> Option<Viol>,
+) -> (T, Viol, usize) {
+    let mut cur = start;
+    let mut cur_viol = match test(&cur) {
+        Some(v) => v,
+        None => Viol::new(class, "original trace did not reproduce during minimisation"),
     };
     let mut tries = 0usize;
     let mut progress = true;
     while progress && tries < budget {
         progress = false;
-        for cand in sc.shrink(&cur) {
-            tries += 1;
+        for e in edits(&cur) {
             if tries >= budget {
                 break;
             }
-            if let Ok(Some(v)) = sc.replay(&cand, &mut st) {
+            let cand = match apply(&cur, &e) {
+                Some(c) => c,
+                None => continue,
+            };
+            tries += 1;
+            if let Some(v) = test(&cand) {
                 if v.class == class {
                     cur = cand;
                     cur_viol = v;
@@ -216,7 +227,8 @@ pub fn minimise(sc: &dyn Scenario, trace: Value, class: &str, budget: usize) -> 
 pub struct KnownFinding {
     pub property: String,
     pub status: String, // "known" | "fixed"
-    pub class_prefix: String,
+    pub class_prefixes: Vec<String>,
+    pub id: String,
     pub what: String,
 }
 
@@ -238,7 +250,8 @@ pub fn load_known(path: &str) -> Vec<KnownFinding> {
             out.push(KnownFinding {
                 property: f["property"].as_str().unwrap_or("").to_string(),
                 status: f["status"].as_str().unwrap_or("").to_string(),
-                class_prefix: f["class"].as_str().unwrap_or("\u{0}").to_string(),
+                class_prefixes: f["classes"].as_array().map(|a| a.iter().filter_map(|x| x.as_str().map(|s| s.to_string())).collect()).unwrap_or_default(),
+                id: f["id"].as_str().unwrap_or("").to_string(),
                 what: f["what"].as_str().unwrap_or("").to_string(),
             });
         }
@@ -344,6 +357,11 @@ pub fn last_panic_location() -> String {
 
 /// panics raised from the harness' own sources are harness errors, not violations
 pub fn is_harness_location(loc: &str) -> bool {
+    // src/types.rs and src/htypes.rs hold the expansions of the crate's exported macros
+    // (define_moments!, define_histogram!): a panic located there is crate code
+    if loc.starts_with("src/types.rs") || loc.starts_with("src/htypes.rs") {
+        return false;
+    }
     loc.starts_with("src/") || loc.contains("/verif/sim/")
 }
 
